@@ -244,6 +244,10 @@ def stateCore (focus : String) (c : Case) : Acc × String := Id.run do
   let eps : Float := ((PB.run Float.abs pcalls).eps).getD (machEps width)
   let w : Option (Vector Float n) := wIn.map (vecOfArray n)
   let exact := attrStr c.header "origin" == "diag"
+  -- cases whose model the harness tables do not describe (failing evaluation, values at the edge of the
+  -- floating-point range) are judged by the twins on the implementation alone
+  let twinsOnly := attrStr c.header "only" == "twins"
+  let wants := fun (f comp : String) => if twinsOnly then comp.endsWith "twins" && wants f comp else wants f comp
   let hugeN := 1000000000
   let parseIdx (v : String) : Nat := match v.toNat? with | some k => min k hugeN | none => hugeN
   let faultMode := (attr c.header "failfrom").isSome
@@ -305,14 +309,15 @@ def stateCore (focus : String) (c : Case) : Acc × String := Id.run do
         if !faultMode then
           acc := acc.addMon (cmpBits s!"step{si}:params=alpha" step.alpha ip)
     -- --- presence
-    acc := acc.addCorr (optPresence s!"step{si}:res-presence" P.residuals o.res)
-    acc := acc.addCorr (optPresence s!"step{si}:coef-presence" P.coefficients o.coef)
+    if !twinsOnly then
+      acc := acc.addCorr (optPresence s!"step{si}:res-presence" P.residuals o.res)
+      acc := acc.addCorr (optPresence s!"step{si}:coef-presence" P.coefficients o.coef)
     -- the implementation's Jacobian query made model calls: the model makes the same ones
     let Pbefore := P
     let (Pj, JmStep) := P.jacobianSeq
     if o.jac.isSome then
       P := Pj
-      if faultMode || wants focus "jac" then
+      if (faultMode || wants focus "jac") && !twinsOnly then
         acc := acc.addCorr (optPresence s!"step{si}:jac-presence" JmStep o.jac)
     match Pbefore.cached with
     | none => pure ()
